@@ -139,6 +139,16 @@ def directed(i):
     from odf.opendocument import OpenDocumentText
     from odf import style, text, meta, dc
     doc = OpenDocumentText()
+    if i == -5:
+        # an object written inline: draw:object holds a whole office:document, with sections of its own (the schema's alternative to a folder)
+        from odf import draw, office, chart
+        doc.text.addElement(text.P(text='before'))
+        p = text.P(); doc.text.addElement(p); fr = draw.Frame(); p.addElement(fr); ob = draw.Object(); fr.addElement(ob)
+        inner = office.Document(mimetype='application/vnd.oasis.opendocument.chart'); ob.addElement(inner)
+        ist = office.AutomaticStyles(); inner.addElement(ist); ist.addElement(style.Style(name='ch1', family='chart'))
+        ib = office.Body(); inner.addElement(ib); ic = office.Chart(); ib.addElement(ic); ic.addElement(chart.Chart(attributes={'class': 'chart:bar'}, stylename='ch1'))
+        p.addText(' behind the frame'); doc.text.addElement(text.P(text='after'))
+        return doc
     if i == -4:
         # mixed content: white space before the first, between and after the last child element; a paragraph of blanks only
         p = text.P(); p.addText(' '); p.addElement(text.Span(text='a')); p.addText(' '); p.addElement(text.Span(text='b')); p.addText('  \n')
@@ -172,7 +182,7 @@ def run(ctx):
     refattrs = set(tuple(x) for x in twin['GenStyleRefs.v']['schema']) | {(STY, 'list-style-name')}
     n = 30 if ctx.quick else 800
     g = schemagen.Gen(ctx.rng, twin['GenGrammar.v'])
-    for i in range(-4, n):
+    for i in range(-5, n):
         doc = directed(i) if i < 0 else g.document()
         before = snapshot(doc)
         case = {'i': i, 'seed': ctx.seed, 'mime': doc.mimetype, 'elements': sum(X.tree_size(before['sections'][a]) for a in SECTS)}
